@@ -1,6 +1,6 @@
 (* Extract_geometry.v -- extraction of the C20 models to OCaml (ExtrOcamlBasic only). *)
 From Coq Require Import Extraction ExtrOcamlBasic.
-From PV Require Import Num Model_density Entry_geometry.
+From PV Require Import Num Model_density Model_poles_axes Entry_geometry.
 From PV.gen Require Import Gen_geometry.
 Extraction Language OCaml.
-Extraction "model_geometry.ml" run_to_cartesian run_to_spherical run_lambert run_poles run_density run_raw_totals.
+Extraction "model_geometry.ml" run_to_cartesian run_to_spherical run_lambert run_poles run_poles_str run_axes_read run_density run_raw_totals.
